@@ -46,6 +46,8 @@ var c16Rots = [][]c16Crop{
 	// automatic organic fertiliser (timed by the harvest in the table) on entries in the middle and at the end of the rotation
 	{{"SM", "2002-04-20", "2002-09-25", "1004", "1505", "3009", 0}, {"WW", "2002-10-15", "2003-07-30", "0510", "0511", "1508", 1}, {"SM", "2004-04-20", "2004-09-25", "1004", "1505", "3009", 0}},
 	{{"WW", "2001-10-05", "2002-07-25", "2009", "2510", "1508", 0}, {"SW", "2003-03-25", "2003-08-10", "0103", "1504", "3108", 1}, {"ZR", "2004-04-10", "2004-10-10", "2503", "3004", "3110", 1}},
+	// harvests in the last days of December, of a common year and of a leap year
+	{{"ZR", "2002-04-10", "2002-12-22", "2503", "3004", "3012", 0}, {"SW", "2003-03-25", "2003-08-10", "0103", "1504", "3108", 0}, {"ZR", "2004-04-10", "2004-12-29", "2503", "3004", "3012", 0}},
 }
 
 // c16Row renders one automan.txt row at the fixed columns the reader uses.
@@ -163,9 +165,9 @@ func init() {
 		Assumptions: []string{"tables: base, narrow window with unsatisfiable moisture conditions, no windows (rotation dates), latest harvest 5 days after the sowing window, one-stage irrigation with small maximum, wide irrigation with maximum-temperature sowing, temperature sum for sowing never reached", "the sowing window and latest harvest date belong to the year of the rotation entry's sowing and harvest date"},
 		Bound: func(t string) string {
 			if t == "quick" {
-				return "7 rotations (incl. permanent crop after permanent crop, automatic organic fertiliser on middle and last entries) x 7 tables x 16 switch combinations x 3^3 block words"
+				return "8 rotations (incl. permanent crop after permanent crop, automatic organic fertiliser on middle and last entries, harvests in the last days of December of a common and a leap year) x 7 tables x 16 switch combinations x 3^3 block words"
 			}
-			return "7 rotations x 7 tables x 16 switch combinations x 4^4 block words"
+			return "8 rotations x 7 tables x 16 switch combinations x 4^4 block words"
 		},
 		Budget: func(t string) time.Duration {
 			if t == "quick" {
